@@ -55,34 +55,61 @@ func swap_BANG(ctx context.Context, a ...MalType) (MalType, error) {
 		return nil, errors.New("swap! called with non-atom")
 	}
 	atm := a[0].(*Atom)
-	atm.Mutex.Lock()
-	defer atm.Mutex.Unlock()
-	args := []MalType{atm.Val}
 	f := a[1]
-	args = append(args, a[2:]...)
-	res, e := Apply(ctx, f, args)
-	if e != nil {
-		return nil, e
+	// the update function runs without the atom's lock (it may itself read or
+	// print this atom, or swap other atoms); its result is installed only if
+	// the atom was not updated meanwhile, otherwise it is applied again
+	for {
+		if ctx != nil && ctx.Err() != nil {
+			return nil, errors.New("timeout while evaluating expression")
+		}
+		val, version := atm.load()
+		args := []MalType{val}
+		args = append(args, a[2:]...)
+		res, e := Apply(ctx, f, args)
+		if e != nil {
+			return nil, e
+		}
+		if atm.compareAndSet(version, res) {
+			return res, nil
+		}
 	}
-	atm.Set(res)
-	return res, nil
 }
 
 // Atoms
 type Atom struct {
-	Mutex  sync.RWMutex
-	Val    MalType
-	Meta   MalType
-	Cursor *Position
+	Mutex   sync.RWMutex
+	Val     MalType
+	Meta    MalType
+	Cursor  *Position
+	version uint64 // incremented on every Set
 }
 
 func (a *Atom) Type() string {
 	return "atom"
 }
 
+// Set must be called with the write lock held
 func (a *Atom) Set(val MalType) MalType {
 	a.Val = val
+	a.version++
 	return a
+}
+
+func (a *Atom) load() (MalType, uint64) {
+	a.Mutex.RLock()
+	defer a.Mutex.RUnlock()
+	return a.Val, a.version
+}
+
+func (a *Atom) compareAndSet(version uint64, val MalType) bool {
+	a.Mutex.Lock()
+	defer a.Mutex.Unlock()
+	if a.version != version {
+		return false
+	}
+	a.Set(val)
+	return true
 }
 
 func (a *Atom) Deref(_ context.Context) (MalType, error) {
